@@ -82,7 +82,16 @@ FUNCS: dict[str, Callable[[int], Any]] = {
 }
 
 
+FUNCS['expdecay'] = lambda s: min(1 - 1 / max(s, 1), 0.95)   # reference formula
+
+
 def hp(v: Any) -> Any:
+    if v == 'expdecay':
+        # the real schedule from the package; terms.py interprets it with the
+        # reference formula above
+        from kfac.hyperparams import exp_decay_factor_averaging
+
+        return exp_decay_factor_averaging(0.95)
     if isinstance(v, str):
         return FUNCS[v]
     return v
